@@ -82,6 +82,7 @@ class G:
             self.names[nm] = loc
         self._div = {}
         self._alias = {}
+        self._sorted = None
         # field index -> unit for array receivers
         self.dimf = {}
         for a in f.adts:
@@ -181,8 +182,62 @@ class G:
                 self._alias[key] = pp
         return self._alias[key]
 
+    def sorted_pair_vars(self):
+        """locals holding (min, max) of two parameter components: assigned `(q, p)` on the arm where `q < p` and
+        `(p, q)` on the other arm of one comparison of p and q.  var -> (param path of .0 on the arm a<b ... ) resolved
+        to {"min": set of params, "max": set of params} (both components range over {p, q})"""
+        if self._sorted is not None:
+            return self._sorted
+        self._sorted = {}
+        b = self.body
+        for l in range(len(b.locals)):
+            ds = self.d.whole_defs(l)
+            if len(ds) != 2 or any(dd[0] != "stmt" for dd in ds) or len(self.d.defs.get(l, [])) != 2:
+                continue
+            tups = []
+            for dd in ds:
+                e = strip(self.d.rvalue(dd[3]["rv"]))
+                if e[0] == "agg" and e[1] == "tuple" and len(e[2]) == 2:
+                    pa, pb = self.param_path(strip(e[2][0])), self.param_path(strip(e[2][1]))
+                    if pa is not None and pb is not None:
+                        tups.append((dd[1], pa, pb))
+            if len(tups) != 2 or tups[0][1] != tups[1][2] or tups[0][2] != tups[1][1]:
+                continue
+            # the deciding comparison
+            for bi, bl in enumerate(b.blocks):
+                t = bl["term"]
+                if not t or t["k"] != "switch":
+                    continue
+                e = strip(self.d.expr(t["discr"]))
+                if e[0] != "bin" or e[1] not in ("Lt", "Gt", "Le", "Ge"):
+                    continue
+                X, Y = self.param_path(e[2]), self.param_path(e[3])
+                if {X, Y} != {tups[0][1], tups[0][2]}:
+                    continue
+                tm = dict((int(a), b2) for a, b2 in t["targets"])
+                true_succ = t["otherwise"] if 0 in tm else tm.get(1)
+                false_succ = tm.get(0, t["otherwise"])
+                small, big = (X, Y) if e[1] in ("Lt", "Le") else (Y, X)     # on the true arm small <(=) big
+                ok = True
+                for (db_, p0, p1) in tups:
+                    on_true = true_succ is not None and (db_ == true_succ or true_succ in self.dom.get(db_, set()))
+                    on_false = db_ == false_succ or false_succ in self.dom.get(db_, set())
+                    if on_true and not on_false:
+                        ok = ok and (p0, p1) == (small, big)
+                    elif on_false and not on_true:
+                        ok = ok and (p0, p1) == (big, small)
+                    else:
+                        ok = False
+                if ok:
+                    self._sorted[l] = {"params": {X, Y}}
+        return self._sorted
+
     def mentions_param(self, e, pp, at_block=None):
+        sp = self.sorted_pair_vars()
         for x in walk(e):
+            # the max component of a sorted pair bounds both of its parameters
+            if sp and x[0] == "field" and x[2] == 1 and strip(x[1])[0] == "var" and strip(x[1])[1] in sp and pp in sp[strip(x[1])[1]]["params"]:
+                return True
             if x[0] in ("field", "param") and self.param_path(x) == pp:
                 return True
             if x[0] == "var" and at_block is not None and self.var_alias(x[1], at_block) == pp:
